@@ -445,3 +445,10 @@ Theorem whole_file_masked_flags_refuted :
        (option_map (decode_file std_fmts masked_flagcfg 2) (encode_file std_fmts masked_flagcfg (ex_file 4)))
      = Some [([67; 82; 67]%N, 66%Z, RInline 305419896); ([75; 86; 68]%N, 2%Z, RInline 120)].
 Proof. vm_compute. split; reflexivity. Qed.
+
+(** * where save() records the offsets: the order of today's events passes, the shapes of two faults do not *)
+Example save_events_inhabited : save_events_ok good_save_events = true.
+Proof. vm_compute. reflexivity. Qed.
+(** the thumbnail offset recorded after the thumbnail was written; a data-block offset recorded after its length *)
+Theorem late_offsets_refuted : low_high_ok late_low_events = false /\ set_then_block res_key late_block_events = false.
+Proof. vm_compute. split; reflexivity. Qed.
